@@ -127,6 +127,15 @@ func c14(c *Ctx) {
 		{fn: "codecs.(*H265AggregationPacket).Unmarshal", want: []int{4}, minOnly: true, why: "2 header octets + first unit size field (lower bound of the analysis; the true minimum is 6)"},
 		{fn: "codecs.(*H265Packet).Unmarshal", want: []int{3}, minOnly: true, why: "shortest form is the single NAL unit packet"}})
 	r.Floor("H265 DONL presence rows", np, 2)
+	na := 0
+	for _, nme := range []string{"codecs.(*H265AggregationPacket).Unmarshal", "codecs.(*H265SingleNALUnitPacket).Unmarshal", "codecs.(*H265FragmentationUnitPacket).Unmarshal", "codecs.(*H265PACIPacket).Unmarshal"} {
+		if f := p.Func(nme); f != nil {
+			na += loopAliasRule(c, f)
+		} else {
+			r.Fatalf("anchor %s missing", nme)
+		}
+	}
+	r.Floor("per-element pointers into loop variables (DOND)", na, 1)
 	var entries []*ssa.Function
 	for _, nme := range []string{"codecs.(*H265Payloader).Payload", "codecs.(*H265Packet).Unmarshal", "codecs.(*H265Packet).IsPartitionHead"} {
 		if f := p.Func(nme); f != nil {
